@@ -339,6 +339,55 @@ func runC12(c *engine.Ctx) {
 			return append(first[:len(first)-2], e...), 10 // zero chunk, then a complete stream follows
 		},
 		"decoded-length-1": func(p, e []byte) ([]byte, int) { return e, len(p) - 1 },
+		// the payload is complete and as long as declared, but the framing is not a valid stream
+		"no-final-chunk": func(p, e []byte) ([]byte, int) {
+			return e[:bytes.LastIndex(e, []byte("0;chunk-signature="))], len(p)
+		},
+		"no-final-chunk-nor-last-delimiter": func(p, e []byte) ([]byte, int) {
+			return e[:bytes.LastIndex(e, []byte("0;chunk-signature="))-2], len(p)
+		},
+		"final-chunk-cut-inside-its-signature": func(p, e []byte) ([]byte, int) {
+			return e[:bytes.LastIndex(e, []byte("0;chunk-signature="))+24], len(p)
+		},
+		"last-chunk-declares-more-than-it-carries": func(p, e []byte) ([]byte, int) {
+			cut := e[:bytes.LastIndex(e, []byte("0;chunk-signature="))-2]
+			i := bytes.LastIndex(cut, []byte(";chunk-signature="))
+			j := bytes.LastIndex(cut[:i], []byte("\n")) + 1
+			return append(append(append([]byte{}, cut[:j]...), []byte("64")...), cut[i:]...), len(p)
+		},
+		"wrong-delimiter-after-chunk-data": func(p, e []byte) ([]byte, int) {
+			b := append([]byte{}, e...)
+			i := bytes.Index(b, []byte("\r\n")) + 2 + 10 // start of the delimiter after the first chunk's data
+			if len(p) > 20 {
+				i = bytes.Index(b, []byte("\r\n")) + 2 + 1<<16
+			}
+			b[i], b[i+1] = 'X', 'X'
+			return b, len(p)
+		},
+		"signature-field-is-garbage": func(p, e []byte) ([]byte, int) {
+			b := append([]byte{}, e...)
+			i := bytes.Index(b, []byte("chunk-signature="))
+			for k := i; k < i+16+64; k++ {
+				b[k] = 'Z'
+			}
+			return b, len(p)
+		},
+		"signature-too-short": func(p, e []byte) ([]byte, int) {
+			i := bytes.Index(e, []byte("chunk-signature=")) + 16
+			return append(append([]byte{}, e[:i]...), e[i+4:]...), len(p) // 60 hex digits; the decoder would eat payload bytes
+		},
+		"negative-chunk-size": func(p, e []byte) ([]byte, int) {
+			return append([]byte("-a;chunk-signature=0123456789abcdef0123456789abcdef0123456789abcdef0123456789abcdef\r\n"), e...), len(p)
+		},
+		"plus-sign-chunk-size": func(p, e []byte) ([]byte, int) {
+			return append([]byte("+"), e...), len(p)
+		},
+		"more-chunks-after-the-final-chunk-declared-total": func(p, e []byte) ([]byte, int) {
+			return append(append([]byte{}, e...), drv.EncodeChunked([]byte("world"), []int{5})...), len(p) + 5
+		},
+		"final-chunk-first-then-the-stream": func(p, e []byte) ([]byte, int) {
+			return append(drv.EncodeChunked(nil, nil), e...), len(p)
+		},
 		"chunk-size-larger-than-data": func(p, e []byte) ([]byte, int) {
 			return drv.EncodeChunked(p, []int{len(p)})[:0], len(p)
 		},
